@@ -173,6 +173,13 @@ func digestTree(root, tier string) string {
 // obtain returns the analysis result for the current tree, from the cache
 // when an identical tree (same digest) was analysed by the same binary.
 func obtain(root, tier string, noCache bool) *Result {
+	if noCache {
+		// scratch copies / mutants: no cache, no lock (the parent of a
+		// sensitivity run holds the lock while its children run)
+		res := analyse(root, tier)
+		res.Digest = "uncached"
+		return res
+	}
 	cacheDir := filepath.Join(verifDir, ".cache")
 	os.MkdirAll(cacheDir, 0o755)
 	// serialise concurrent invocations so that 18 checks started together
